@@ -5,7 +5,7 @@ import syntax
 
 
 def run_conv_property(R, prop, raw_cases, runner, term_fn, describe, key_fn, model_body, failed_holds,
-                      harness_features=None, header=None):
+                      harness_features=None, header=None, tag="cases"):
     """raw_cases: dicts with target, src, entry (+ optional group_value, inner).  term_fn(case, result) -> Gallina."""
     binary, log = vlib.build_harness()
     if binary is None:
@@ -31,7 +31,7 @@ def run_conv_property(R, prop, raw_cases, runner, term_fn, describe, key_fn, mod
             R.violation("render-error", "cannot render case %s: %s" % (json.dumps(c), e),
                         {"case": c, "failed": "renderer"}, found_input=False)
     header = header or syntax.HEADER_CONV
-    bad, errors = vlib.coq_eval(prop, header, terms, runner, shard=120)
+    bad, errors = vlib.coq_eval(prop, header, terms, runner, shard=120, tag=tag)
     vlib.decide(R, terms, bad, errors,
                 describe=lambda i: describe(keep[i]),
                 model_body=model_body,
